@@ -7,6 +7,8 @@ import (
 	"net"
 	"sync"
 	"time"
+
+	"github.com/inetaf/tcpproxy"
 )
 
 // Handler responds to a TCP request.
@@ -156,10 +158,23 @@ func (c *conn) Close() error {
 // CloseWrite shuts down the write side of the connection if the
 // underlying connection supports it.
 func (c *conn) CloseWrite() error {
-	if cw, ok := c.c.(closeWriter); ok {
-		return cw.CloseWrite()
+	return CloseWrite(c.c)
+}
+
+// CloseWrite shuts down the write side of c and leaves the read side open.
+// It looks through the tcpproxy.Conn wrapper of the https+tcp+sni listener
+// which does not pass CloseWrite on to the connection it wraps.
+func CloseWrite(c net.Conn) error {
+	for {
+		if cw, ok := c.(closeWriter); ok {
+			return cw.CloseWrite()
+		}
+		pc, ok := c.(*tcpproxy.Conn)
+		if !ok {
+			return errors.New("tcp: connection does not support CloseWrite")
+		}
+		c = pc.Conn
 	}
-	return errors.New("tcp: connection does not support CloseWrite")
 }
 
 func (c *conn) LocalAddr() net.Addr {
